@@ -425,4 +425,5 @@ pub fn catalogue() -> Vec<Spec> {
 }
 
 /// Circuits of the quick tier, cheapest first (the budget cuts from the end).
-pub const QUICK: [&str; 5] = ["bb1-arith", "bb4-recompose", "bb4-challenger", "bb1-bits", "bb4-merkle"];
+pub const QUICK: [&str; 6] =
+    ["bb1-arith", "bb1-horner", "bb4-recompose", "bb4-challenger", "bb1-bits", "bb4-merkle"];
